@@ -1,0 +1,26 @@
+//go:build verif
+
+// Contracts for govc (contract-based deductive verification, see /verif/DESIGN.md).
+// Comment-only file: it adds no code and is compiled only with -tags verif.
+
+package promise
+
+// A promise is completed at most once: Done on a completed promise changes
+// nothing; Done on a pending one records exactly the given outcome.
+//@ func (*Promise[T]).Done [C01]
+//@   modifies p.pending, p.res, p.err
+//@   ensures once: old(p.pending) != 1 ==> p.pending == old(p.pending) && p.res == old(p.res) && p.err == old(p.err)
+//@   ensures completed: old(p.pending) == 1 ==> p.pending == 0 && p.res == res && p.err == err
+
+//@ func New [C01]
+//@   modifies nothing
+//@   ensures fresh(result) && result.pending == 1
+
+//@ func Fulfilled [C01]
+//@   modifies nothing
+//@   ensures fresh(result) && result.pending == 0 && result.err == err && result.res == res
+
+// Get returns the recorded outcome (blocking until completion is not modelled).
+//@ func (*Promise[T]).Get [C01]
+//@   modifies nothing
+//@   ensures result0 == p.res && result1 == p.err
